@@ -70,6 +70,10 @@ func put[T any](b *builder, typ, desc string, v T, eq func(x, y T) bool, facts f
 		sampleError(typ, desc+": constructed value is nil")
 		return
 	}
+	if _, ok := any(v).(accessStructure); ok && facts == nil {
+		// access structures: validity on the public accessors + canonical encoding (asfacts.go)
+		facts = func(x T) string { return accessFacts(any(x)) }
+	}
 	var s Sample
 	var err error
 	if p := vh.Safely(func() { s, err = mk(typ, desc, v, eq, facts) }); p != "" {
